@@ -67,6 +67,23 @@ theorem level_static_never_fails (L l t : Nat) (h1 : 1 ≤ l) (h2 : l ≤ L) (ht
 example : Le (rpOfCParams (rowAt 1 5) true false) (rpOfCParams (rowAt 1 5) true false) :=
   ⟨Nat.le_refl _, Nat.le_refl _, Nat.le_refl _, Nat.le_refl _, rfl, rfl, rfl, by decide, rfl, Nat.le_refl _, rfl, Nat.le_refl _, Nat.le_refl _⟩
 
+/-- **usingCParams_covers**: ZSTD_estimateCCtxSize_usingCParams(c) / ZSTD_estimateCStreamSize_usingCParams(c) budget enough for every job
+whose resolved parameters are dominated by c under EITHER setting of the row match finder - whichever the library resolves after
+ZSTD_adjustCParams shrank the logs to the source size (the resolution is made on the SHRUNK window log, so it can differ from what c
+alone would select), or whichever the caller selected with ZSTD_c_useRowMatchFinder.  The domination hypothesis is evaluated
+(`Estimate.leB`, `leB_sound`) on the applied parameters of every static-context run sized by these estimates. -/
+theorem usingCParams_covers (c : CPar) (stream : Bool) (p : RP) (hle : Le p (rpOfCParams c p.useRow stream)) :
+    estimate p ≤ estimateUsingCParams c stream :=
+  Nat.le_trans (estimate_mono p _ hle) (estimate_le_usingCParams c p.useRow stream)
+
+/-- with `static_never_fails`: a static context of ZSTD_estimate*_usingCParams(c) bytes never fails a reservation for such a job -/
+theorem usingCParams_static_never_fails (c : CPar) (stream : Bool) (p : RP) (hle : Le p (rpOfCParams c p.useRow stream))
+    (lo size : Nat) (hsz : estimateUsingCParams c stream ≤ size) : Clean (run (init lo size) (reserveSeq p)) :=
+  static_never_fails p lo size (by intro h; rw [hle.l1] at h; cases h) (Nat.le_trans (usingCParams_covers c stream p hle) hsz)
+
+/-- the budget of chain-table-heavy lazy parameters covers the hash-chain finder a 16 KB source falls back to, and the row finder alike -/
+example : leB { rpOfCParams ⟨15, 15, 8, 4, 4, 0, 5⟩ false false with windowLog := 14, chainLog := 14, pledged := 16000 } (rpOfCParams ⟨15, 15, 8, 4, 4, 0, 5⟩ false false) = true := by decide
+
 /-! ### streaming decoder -/
 
 /-- **dstream_buffers_le**: for every frame whose (clamped) window is within the limit W (W ≥ 1 KiB), whatever its content size
@@ -113,6 +130,22 @@ theorem refused_iff (hw W : Nat) (fcs : Option Nat) (b out : Nat) (whole : Bool)
   · exact (dstream_window_refused hw W).mp ha
   · unfold windowAccepted effectiveWindow at ha
     simpa using ha
+
+/-- **huge_window_refused**: every limit a caller can configure is at most 2^ZSTD_WINDOWLOG_MAX (ZSTD_d_windowLogMax,
+ZSTD_DCtx_setMaxWindowSize); a frame announcing a window of 2^32 bytes or more - only a single-segment frame can, through its 8-byte
+content-size field - is refused under every such limit, whatever its low 32 bits, unless the single-pass shortcut applies -/
+theorem huge_window_refused (hw W : Nat) (fcs : Option Nat) (b out : Nat) (whole : Bool) (hW : W ≤ 2 ^ ZSTD_WINDOWLOG_MAX) (hh : 2 ^ 32 ≤ hw)
+    (hs : singlePassOk fcs out whole = false) : loadHeader hw fcs b W out whole = .refused := by
+  apply (refused_iff hw W fcs b out whole).mpr
+  refine ⟨hs, ?_⟩
+  have h31 : (2 : Nat) ^ ZSTD_WINDOWLOG_MAX < 2 ^ 32 := by decide
+  have : hw ≤ max hw (2 ^ ZSTD_WINDOWLOG_ABSOLUTEMIN) := Nat.le_max_left _ _
+  omega
+
+/-- the verdict depends on the whole window value, not on its low 32 bits -/
+example : loadHeader (2 ^ 32 + 512) (some (2 ^ 32 + 512)) 131072 1500 4194304 false = .refused ∧
+          loadHeader 512 (some 512) 512 1500 100 false = .buffered 512 512 ∧
+          loadHeader (3 * 2 ^ 32 + 1000000) (some (3 * 2 ^ 32 + 1000000)) 131072 1048576 4194304 true = .refused := by decide
 
 /-- **bufs_sufficient**: whatever buffers the context kept from earlier frames, after the sizing step EACH of them is at least as
 large as the frame about to be decoded needs - a later frame can never meet an input buffer smaller than its largest block -/
